@@ -95,7 +95,12 @@ class DefUse:
 
     def single_def(self, local):
         d = self.defs.get(local, [])
-        return d[0] if len(d) == 1 else None
+        if len(d) == 1:
+            return d[0]
+        # duplicated blocks of an inlined / threaded body (mirlib/inline.py) repeat one statement
+        if len(d) > 1 and all(x[1] == 'stmt' and x[2].code == d[0][2].code for x in d) and d[0][1] == 'stmt':
+            return d[0]
+        return None
 
     def rhs_inputs(self, d):
         """Locals feeding a def (stmt rhs or call args)."""
@@ -168,20 +173,22 @@ class DefUse:
         return seen
 
     # ------------------------------------------------------------ access paths
-    def access_path(self, operand, depth=0):
+    def access_path(self, operand, depth=0, suffix=None):
         """Resolve an operand/place to a symbolic access path through single-def temporaries:
         returns (root, [steps]) where root is ('arg', n, type) | ('local', n, type) |
         ('call', func) | ('static', text) and steps are field indices / 'deref' markers (deref
-        dropped)."""
+        dropped).  `suffix`: projections still to be applied to the operand (carried downwards so
+        that `_x = (a, b); _x.1` resolves to `b`)."""
         place = operand_place(operand)
+        suffix = list(suffix or [])
         if depth > 25:
-            return (('unknown', place), [])
+            return (('unknown', place), suffix)
         if place.startswith('const '):
-            return (('const', place), [])
+            return (('const', place), suffix)
         bl = base_local(place)
         if bl is None:
-            return (('unknown', place), [])
-        fields = place_fields(place)
+            return (('unknown', place), suffix)
+        fields = place_fields(place) + suffix
         nargs = {n for (n, _t) in self.body.args}
         if bl in nargs:
             return (('arg', bl, self.body.local_type(bl)), fields)
@@ -193,16 +200,16 @@ class DefUse:
             rhs = obj.rhs.strip()
             m = re.match(r'^&(?:mut |raw const |raw mut )?(.*)$', rhs)
             if m:
-                root, steps = self.access_path(m.group(1), depth + 1)
-                return (root, steps + fields)
+                return self.access_path(m.group(1), depth + 1, fields)
             if rhs.startswith('deref_copy '):
                 rhs = 'copy ' + rhs[len('deref_copy '):]
             if rhs.startswith(('move ', 'copy ')):
-                root, steps = self.access_path(rhs, depth + 1)
-                return (root, steps + fields)
+                return self.access_path(rhs, depth + 1, fields)
+            ops = tuple_operands(rhs)
+            if ops is not None and fields and isinstance(fields[0], int) and fields[0] < len(ops):
+                return self.access_path(ops[fields[0]], depth + 1, fields[1:])
             if re.match(r'^\(?\*?_\d+', rhs) and ' ' not in rhs.split(':')[0]:
-                root, steps = self.access_path(rhs, depth + 1)
-                return (root, steps + fields)
+                return self.access_path(rhs, depth + 1, fields)
             return (('local', bl, self.body.local_type(bl)), fields)
         # call: look through Deref/AsRef/clone-like wrappers
         f = obj.func or ''
@@ -210,9 +217,29 @@ class DefUse:
                 re.search(r' as (std|core)::(convert::AsRef|borrow::Borrow)<.*>>::(as_ref|borrow)$', f) or \
                 re.search(r'::option::Option::<.*>::as_ref$', f):
             if obj.args:
-                root, steps = self.access_path(obj.args[0], depth + 1)
-                return (root, steps + fields)
+                return self.access_path(obj.args[0], depth + 1, fields)
         return (('call', f, bid), fields)
+
+
+def tuple_operands(rhs):
+    """Operands of a tuple aggregate `(move _1, copy _2, const 3_usize)`; None if rhs is not one."""
+    rhs = rhs.strip()
+    if not (rhs.startswith('(') and rhs.endswith(')')) or rhs == '()':
+        return None
+    from .parse import split_args, scan_top_level
+    # the opening parenthesis must close at the very end
+    ev = scan_top_level(rhs)
+    if not ev or ev[0][0] != 0:
+        return None
+    close = [i for (i, c, d) in ev if c == ')' and d == 0]
+    if not close or close[0] != len(rhs) - 1:
+        return None
+    ops = split_args(rhs[1:-1])
+    if not ops or not all(o.startswith(('move ', 'copy ', 'const ')) for o in ops):
+        return None
+    if len(ops) == 1 and not rhs[1:-1].rstrip().endswith(','):
+        return None
+    return ops
 
 
 # ---------------------------------------------------------------------------- typed places
@@ -280,15 +307,16 @@ def parse_place(text):
         return base_local(text), []
 
 
-def typed_path(body, du, operand, depth=0):
+def typed_path(body, du, operand, depth=0, suffix=None):
     """Like DefUse.access_path but keeps, for every field step, the type that owns the field:
     returns (root, [(idx, owner_type_text), ...])."""
     place = operand_place(operand)
+    suffix = list(suffix or [])
     if place.startswith('const ') or depth > 25:
-        return (('const', place), [])
+        return (('const', place), suffix)
     bl, projs = parse_place(place)
     if bl is None:
-        return (('unknown', place), [])
+        return (('unknown', place), suffix)
     steps = []
     cur_ty = body.local_type(bl)
     for p in projs:
@@ -299,6 +327,7 @@ def typed_path(body, du, operand, depth=0):
             cur_ty = _deref_ty(cur_ty)
         elif p[0] == 'downcast':
             cur_ty = (cur_ty or '') + '::' + p[1]
+    steps = steps + suffix
     nargs = {n for (n, _t) in body.args}
     if bl in nargs:
         return (('arg', bl, body.local_type(bl)), steps)
@@ -312,15 +341,15 @@ def typed_path(body, du, operand, depth=0):
             rhs = 'copy ' + rhs[len('deref_copy '):]
         m = re.match(r'^&(?:mut |raw const |raw mut )?(.*)$', rhs)
         if m:
-            root, st = typed_path(body, du, m.group(1), depth + 1)
-            return (root, st + steps)
-        if rhs.startswith(('move ', 'copy ')):
-            root, st = typed_path(body, du, rhs, depth + 1)
-            return (root, st + steps)
+            return typed_path(body, du, m.group(1), depth + 1, steps)
         m = re.match(r'^(?:move|copy) (.*) as .* \((?:IntToInt|PtrToPtr|Transmute)\)$', rhs)
         if m:
-            root, st = typed_path(body, du, m.group(1), depth + 1)
-            return (root, st + steps)
+            return typed_path(body, du, m.group(1), depth + 1, steps)
+        if rhs.startswith(('move ', 'copy ')):
+            return typed_path(body, du, rhs, depth + 1, steps)
+        ops = tuple_operands(rhs)
+        if ops is not None and steps and steps[0][0] < len(ops):
+            return typed_path(body, du, ops[steps[0][0]], depth + 1, steps[1:])
         return (('local', bl, body.local_type(bl)), steps)
     f = obj.func or ''
     if re.search(r' as [\w:]*(Deref|DerefMut|__Deref)>::deref(_mut)?$', f) or \
@@ -328,8 +357,7 @@ def typed_path(body, du, operand, depth=0):
             re.search(r' as [\w:]*(AsRef|Borrow)<.*>>::(as_ref|borrow)$', f) or \
             re.search(r' as [\w:]*Clone>::clone$', f):
         if obj.args:
-            root, st = typed_path(body, du, obj.args[0], depth + 1)
-            return (root, st + steps)
+            return typed_path(body, du, obj.args[0], depth + 1, steps)
     return (('call', f, bid), steps)
 
 
